@@ -57,7 +57,15 @@ def plain_packet(q):
     return q
 
 
+SUB_SDP = ["SubSDP", "SubSDPSlots"]
+SUB_SCP = ["SubSCP", "SubSCPSlots", "SubSCPInit", "SubSubSCP"]
+
+
 def plain_case(c):
+    if c[0] == "enc_sub":        # an instance of a user-defined subclass is asked the same question
+        return ["enc_scp", plain_packet(c[2]), c[3]] if c[1] in SUB_SCP else ["enc_sdp", plain_packet(c[2])[:11]]
+    if c[0] == "dec_sub":
+        return ["dec_scp", c[2], c[3]] if c[1] in SUB_SCP else ["dec_sdp", c[2]]
     if c[0] in ("enc_sdp", "enc_scp"):
         return [c[0], plain_packet(c[1])] + list(c[2:])
     return c
@@ -264,6 +272,20 @@ def gen_cases(rng, tier):
 
 # ------------------------------------------------------------------ numpy scalars, truthy flags
 FLAG_VALUES = [True, False, 1, 0, 2, npv("bool_", True), npv("bool_", False)]
+
+
+def gen_subclasses(rng, tier):
+    """instances of user-defined subclasses of SDPPacket / SCPPacket (nothing overridden; with a __dict__, with
+    extra slots, with an extra attribute, two levels deep): encoded, decoded through the subclass"""
+    cases = []
+    for rep in range(12 if tier == "quick" else 120):
+        for cls in SUB_SDP + SUB_SCP:
+            q = rand_packet(rng)
+            cases.append(dict(case=["enc_sub", cls, q if cls in SUB_SCP else q[:11], n_present(q)], stream="subclass"))
+            ln = rng.choice([rng.randint(0, 13), rng.randint(14, 30)])
+            bs = [rng.choice([0, 255, 0x87, 0x07, rng.randint(0, 255)]) for _ in range(ln)]
+            cases.append(dict(case=["dec_sub", cls, bs, rng.choice([0, 1, 2, 3, None])], stream="subclass"))
+    return cases
 
 
 def gen_numpy(rng, tier):
@@ -536,11 +558,19 @@ def sweep_packet(base, f, v):
 
 # ------------------------------------------------------------------ Coq literals
 HEADER = """From Coq Require Import ZArith List Bool String. Import ListNotations. Open Scope Z_scope.
-Require Import Rig.Generated.GenPackets Rig.Model.Base Rig.Model.Packet.
+Require Import Rig.Generated.GenPackets Rig.Model.Base Rig.Model.Packet Rig.Model.PacketObj.
 Definition show_sdp (p : sdp) :=
   (reply_expected p, [tag p; dest_port p; dest_cpu p; src_port p; src_cpu p; dest_x p; dest_y p; src_x p; src_y p],
    data p).
 Definition show_scp (q : scp) := (show_sdp (sdp_part q), [cmd_rc q; seq q], [arg1 q; arg2 q; arg3 q]).
+Definition show_pkt (k : option pkt) :=
+  match k with
+  | None => None
+  | Some (KSdp p) => Some (show_sdp p, [], [])
+  | Some (KScp q) => Some (show_scp q)
+  end.
+Definition show_dout (d : dout) :=
+  match d with ODecoded k => (0, show_pkt k, None) | ORechecked k e => (1, show_pkt k, e) end.
 Definition rmap {A B} (f : A -> B) (r : result A) : result B := bind r (fun a => Ok (f a)).
 (* Fletcher-style running digest (a, c): a += b + 1; c += a  -- no modulus, the numbers stay below 2^50 *)
 Definition dg (h : Z * Z) (bs : list Z) : Z * Z :=
@@ -606,6 +636,116 @@ def coq_expr(c):
         return ("fold_left (fun h v => dgr h (rmap nums (scp_of_bytes (set2 %s %d v) %s))) "
                 "(zrange %d %d) (0, 0)" % (zl(c[2]), c[1], zlit(c[5]), c[3], c[4] - c[3]))
     raise ValueError(k)
+
+
+# ---- objects and histories evaluated in the model (Model/PacketObj.v)
+FLD = {0: "LReply", 1: "LTag", 2: "LDestPort", 3: "LDestCpu", 4: "LSrcPort", 5: "LSrcCpu", 6: "LDestX", 7: "LDestY",
+       8: "LSrcX", 9: "LSrcY", 11: "LCmd", 12: "LSeq", 13: "LArg1", 14: "LArg2", 15: "LArg3"}
+
+
+def coq_pyval(x):
+    if x is None:
+        return "PNone"
+    if isinstance(x, dict):
+        t = x["np"]
+        if t == "bool_":
+            return "(PNp 1 false %s)" % zlit(int(bool(x["v"])))
+        return "(PNp %s %s %s)" % (t.lstrip("uint"), vbool(not t.startswith("u")), zlit(x["v"]))
+    return "(PInt %s)" % zlit(int(x))
+
+
+def coq_obj(scp, q):
+    q = list(q) + [None] * (16 - len(q))
+    return ("{| o_scp := %s; o_reply := %s; o_tag := %s; o_dest_port := %s; o_dest_cpu := %s; o_src_port := %s; "
+            "o_src_cpu := %s; o_dest_x := %s; o_dest_y := %s; o_src_x := %s; o_src_y := %s; o_data := %s; "
+            "o_cmd := %s; o_seq := %s; o_arg1 := %s; o_arg2 := %s; o_arg3 := %s |}"
+            % ((vbool(scp),) + tuple(coq_pyval(x) for x in q[:10]) + (zl(q[10]),) + tuple(coq_pyval(x) for x in q[11:16])))
+
+
+def coq_history(h):
+    """the whole history as one expression of the object / buffer machine of the model"""
+    if h[0] == "hist_enc":
+        ops = []
+        for op in h[4]:
+            if op[0] == "enc":
+                ops.append("OEnc")
+            elif op[0] == "set":
+                ops.append("OSetData %s" % zl(op[2]) if op[1] == DATA else "OSet %s %s" % (FLD[op[1]], coq_pyval(op[2])))
+            elif op[0] == "poke":
+                ops.append("OPoke %d %s" % (op[1], zlit(op[2])))
+            elif op[0] == "trunc":
+                ops.append("OTrunc %d" % op[1])
+            elif op[0] == "refill":
+                ops.append("ORefill %s" % zl(op[1]))
+            elif op[0] == "extend":
+                ops.append("OExtend %s" % zl(op[1]))
+        return "run_obj %s %s" % (coq_obj(h[1] == "scp", h[2]), vlist(ops))
+    ops, kinds, lens = [], [], []
+    for st in h[1]:
+        if st[0] in ("dec", "decbuf"):
+            ops.append("DDec %s %s %s" % (vbool(st[1] == "scp"), zl(st[2]),
+                                          "scp_default_n_args" if st[3] is None else zlit(st[3])))
+            kinds.append(st[1])
+            lens.append(len(st[2]))
+        elif st[0] == "overwrite":
+            n = lens[st[1]]
+            ops.append("DOverwrite %d %s" % (st[1], zl((list(st[2])[:n] + [0] * n)[:n])))
+        elif st[0] == "mod":
+            i, f, v = st[1], st[2], st[3]
+            if f == 0:
+                ops.append("DSetReply %d %s" % (i, vbool(bool(v))))
+            elif f == DATA:
+                ops.append("DSetData %d %s" % (i, zl(v)))
+            elif f >= 13:
+                ops.append("DSetArg %d %s %s" % (i, FLD[f], "None" if v is None else "(Some %s)" % zlit(v)))
+            else:
+                ops.append("DSetInt %d %s %s" % (i, FLD[f], zlit(v)))
+        elif st[0] == "turn":
+            ops.append("DTurn %d" % st[1])
+        elif st[0] == "recheck":
+            ops.append("DRecheck %d" % st[1])
+    return "map show_dout (drun dstate0 %s)" % vlist(ops)
+
+
+def canon_pkt(t):
+    """parsed show_pkt value -> the driver's list (11 entries for an SDP packet, 16 for SCP)"""
+    if t is None:
+        return None
+    t = t[1]
+    out = model_sdp(t[:3])
+    return out + list(t[3]) + [unopt(a) for a in t[4]] if t[3] else out
+
+
+def canon_history(h, v):
+    """model outputs of a history in the form of the driver's outputs (error classes collapsed)"""
+    if h[0] == "hist_enc":
+        return [["ok", list(r[1])] if r[0] == "Ok" else ["error"] for r in v]
+    out = []
+    for d in v:
+        k = canon_pkt(d[1])
+        if d[0] == 0:
+            out.append(["ok", k] if k is not None else ["error"])
+        elif k is None:
+            out.append(["error"])
+        else:
+            e = d[2][1]
+            out.append(["ok", k, ["ok", list(e[1])] if e[0] == "Ok" else ["error"]])
+    return out
+
+
+def canon_history_impl(h, ho):
+    if h[0] == "hist_enc":
+        return [["ok", o[1]] if o[0] == "ok" else ["error"] for o in ho]
+    out = []
+    judged = [st for st in h[1] if st[0] in ("dec", "decbuf", "recheck")]
+    for st, o in zip(judged, ho):
+        if o[0] != "ok":
+            out.append(["error"])
+        elif st[0] == "recheck":
+            out.append(["ok", o[1], ["ok", o[2][1]] if o[2][0] == "ok" else ["error"]])
+        else:
+            out.append(["ok", o[1]])
+    return out
 
 
 def model_sdp(t):
@@ -756,7 +896,7 @@ def run(chk, args):
                 cases.append(dict(case=r["case"], stream="replay"))
         sweeps = []
     else:
-        cases = gen_cases(chk.rng, chk.tier) + gen_numpy(chk.rng, chk.tier)
+        cases = gen_cases(chk.rng, chk.tier) + gen_numpy(chk.rng, chk.tier) + gen_subclasses(chk.rng, chk.tier)
         sweeps = sweep_cases(chk.rng, chk.tier)
         hists = gen_histories(chk.rng, chk.tier)
     corpus = os.path.join(lib.VERIF, "corpus", "C15.json")
@@ -867,11 +1007,20 @@ def run(chk, args):
     if chk.model_ok:
         try:
             msw = [s for s in sweeps if s[0] != "sweep16raw"]
-            midx = [i for i, c in enumerate(flat) if modelable(c)]
+            # steps of histories are evaluated below, history by history, in the object machine of the model
+            midx = [i for i, c in enumerate(flat) if modelable(c) and "hist" not in cases[i]]
             mflat = [flat[i] for i in midx]
             mcases = mflat + msw
             mouts = [outs[i] for i in midx] + [o for s, o in zip(sweeps, souts) if s[0] != "sweep16raw"]
-            vals = chk.coq_eval(HEADER, [coq_expr(c) for c in mflat], shard=250)
+
+            def expr(i):
+                raw = cases[i]["case"]
+                if raw[0] == "enc_sub":                       # an instance of a subclass: an object of that class
+                    return "obj_bytes %s" % coq_obj(raw[1] in SUB_SCP, raw[2])
+                if raw[0] in ("enc_sdp", "enc_scp") and cases[i]["stream"].startswith(("numpy", "flag")):
+                    return "obj_bytes %s" % coq_obj(raw[0] == "enc_scp", raw[1])     # values as Python / numpy values
+                return coq_expr(flat[i])
+            vals = chk.coq_eval(HEADER, [expr(i) for i in midx], shard=250)
             vals += chk.coq_eval(HEADER, [coq_expr(c) for c in msw], shard=3, name="sweep")
             bad = 0
             for k, (c, o, v) in enumerate(zip(mcases, mouts, vals)):
@@ -888,6 +1037,25 @@ def run(chk, args):
             if not bad:
                 chk.oblige("correspondence:packets (%d cases: exact bytes of every encoding, every field of every "
                            "decoding, error class; 2^16 sweeps of cmd_rc and seq by digest)" % len(mcases), True)
+            # whole histories in the object / buffer machine of the model
+            hok = [(h, ho) for h, st, ho in zip(hists, steps, houts) if ho[0] == "hist" and len(ho[1]) == len(st)]
+            hvals = chk.coq_eval(HEADER, [coq_history(h) for h, _ in hok], shard=60, name="hist")
+            bad = 0
+            for (h, ho), v in zip(hok, hvals):
+                chk.traces_validated += len(ho[1])
+                m, i = canon_history(h, v), canon_history_impl(h, ho[1])
+                if m != i:
+                    js = [j for j in range(min(len(m), len(i))) if m[j] != i[j]] or [min(len(m), len(i))]
+                    if any(x.get("hist") and x["hist"][0] is h and x["hist"][1] == js[0] and ci in hits
+                           for ci, x in enumerate(cases)):
+                        continue        # that step is already reported as a failing input by the oracle
+                    bad += 1
+                    if bad <= 3:
+                        chk.disagree("history step %d: model %r, implementation %r"
+                                     % (js[0], m[js[0]:js[0] + 1], i[js[0]:js[0] + 1]), dict(history=h, step=js[0]))
+            if not bad:
+                chk.oblige("correspondence:histories (%d histories run in the model's object / buffer machine: every "
+                           "encode, decode and re-check output)" % len(hok), True)
             # the decodings rig made of its own encodings, decoded by the model from the same bytes
             rt = [(c, o) for c, o in zip(flat, outs) if c[0] in ("enc_sdp", "enc_scp") and o[0] == "ok"]
             rt = rt[:800] if chk.tier == "quick" else rt[:30000]
@@ -918,7 +1086,8 @@ def run(chk, args):
         "judged against the current values; error-path histories (an encode that raises because a field is None "
         "or outside its width, each header/SCP field in turn, then the field repaired and the same object encoded "
         "again); field values given as numpy integer scalars of all eight types (model and oracle see int(x)), "
-        "flags given as True/False/1/0/2/numpy.bool_ (bool(x)); decoding from a caller's bytes / bytearray / "
+        "flags given as True/False/1/0/2/numpy.bool_ (bool(x)); instances of user-defined subclasses of both classes "
+        "(nothing overridden, with __dict__ / extra slots / extra attribute / two levels) encoded and decoded; decoding from a caller's bytes / bytearray / "
         "memoryview, the bytearray then overwritten in place, the earlier packet's fields and re-encoding checked "
         "again; a threaded SEARCH (6 threads encoding their own packets at once for 2.5 s, switch interval 1e-6, "
         "every result against the independent encoder -- finding nothing proves nothing about thread safety). "
